@@ -344,6 +344,20 @@ pub fn eval_c06(sc: &Scenario, h: &History, signed: &Signeds, out: &mut Outcome)
         if !b.full || b.balanced_at.is_none() {
             continue;
         }
+        // a transaction handed out without the library's own final validation is judged only when nothing
+        // happened between the successful balancing and the build (the fee is the one the builder set)
+        if b.unsafe_build && b.dirty_since_balance {
+            out.count("c06.unsafe_build_after_later_changes_not_judged", 1);
+            continue;
+        }
+        if b.unsafe_build && fee_request_before(sc, h, b.op).1.is_some() {
+            // the fee is the caller's own (exact request): the unvalidated build hands it out as it is
+            out.count("c06.unsafe_build_with_caller_fixed_fee_not_judged", 1);
+            continue;
+        }
+        if b.unsafe_build {
+            out.count("c06.unsafe_builds_judged", 1);
+        }
         let s = match signed.get(bi) {
             Some(Some(Ok(s))) => s,
             Some(Some(Err(e))) => {
@@ -678,6 +692,8 @@ fn profile_c06() -> Profile {
     p.fee_requests = 200;
     p.votes = 150;
     p.post_balance_noise = 100;
+    p.unsafe_builds = 200;
+    p.many_assets = 200;
     p
 }
 fn profile_c07() -> Profile {
@@ -695,6 +711,7 @@ fn profile_c07() -> Profile {
     p.fine_cpb = 250;
     p.adaptive = 250;
     p.tight = 450;
+    p.unsafe_builds = 200;
     p
 }
 
